@@ -21,6 +21,7 @@ import io
 import math
 import os
 import shutil
+import warnings
 from fractions import Fraction as F
 
 import numpy as np
@@ -1260,6 +1261,161 @@ def part_P(rng, tier, V):
     return dict(filter_purity_calls=n)
 
 
+# ---------------------------------------------------------------------------------------------
+# part M: the orchestration of FitsTiler._tile_toast (several images into one TOAST pyramid)
+# against Model/MultiToast.v: one sampling call per image with its own filter at one common
+# depth, then one cascade whose filter is the union, the worker count carried into every call
+
+MT_DEFS = """
+From Coq Require Import ZArith List Bool.
+Import ListNotations.
+Local Open Scope Z_scope.
+Definition oz_eqb (a b : option Z) : bool :=
+  match a, b with Some x, Some y => x =? y | None, None => true | _, _ => false end.
+Definition ev_eqb (a b : event) : bool :=
+  match a, b with
+  | ToastBase i d f p, ToastBase i' d' f' p' => Nat.eqb i i' && (d =? d') && Nat.eqb f f' && oz_eqb p p'
+  | Cascade p, Cascade p' => oz_eqb p p'
+  | _, _ => false
+  end.
+Fixpoint evs_eqb (a b : list event) : bool :=
+  match a, b with
+  | [], [] => true
+  | x :: a', y :: b' => ev_eqb x y && evs_eqb a' b'
+  | _, _ => false
+  end.
+Record mtcase := mkMT { mt_given : option Z; mt_levels : list (option Z); mt_par : option Z;
+                        mt_events : list event; mt_cascade_depth : Z; mt_probe : list (list bool * bool) }.
+(* 1: the calls differ from the script; 2: the cascade did not start at the common depth;
+   3: the cascade's filter is not the union of the images' filters on some probe tile *)
+Definition chk_mt (c : mtcase) : nat :=
+  if negb (evs_eqb (mt_events c) (script (mt_given c) (mt_levels c) (mt_par c))) then 1%nat
+  else if negb (mt_cascade_depth c =? recorded_levels (mt_given c) (mt_levels c)) then 2%nat
+  else if forallb (fun pr => Bool.eqb (union_filter bool (map (fun b => fun _ : bool => b) (fst pr)) true) (snd pr)) (mt_probe c)
+       then 0%nat else 3%nat.
+"""
+
+
+def part_M(rng, tier, V, replay=None):
+    from unittest import mock
+    from astropy.io import fits
+    import toasty
+    from toasty import TilingMethod, builder as B, pyramid as P, toast as T, collection as COL
+    work = common.workdir() / "mt"
+    shutil.rmtree(work, ignore_errors=True)
+    os.makedirs(work)
+    # three small TAN images far apart, of different resolution, the finest NOT last
+    specs = [(40.0, 25.0, 0.05), (215.0, -35.0, 0.2), (130.0, 60.0, 0.1)]
+    rng.shuffle(specs)
+    if specs[-1][2] == 0.05:
+        specs[0], specs[-1] = specs[-1], specs[0]
+    paths = []
+    for k, (ra, dec, sc) in enumerate(specs):
+        w = mk_tan(48, 40, ra, dec, sc, rng.uniform(0, 90), 1)
+        data = (np.arange(48 * 40, dtype=np.float32).reshape(40, 48) % 97) + 10 * (k + 1)
+        pth = str(work / f"img{k}.fits")
+        fits.PrimaryHDU(data, header=w.to_header()).writeto(pth, overwrite=True)
+        paths.append(pth)
+    with quiet(), warnings.catch_warnings():
+        warnings.simplefilter("ignore")
+        levels = [P.guess_base_layer_level(wcs=im.wcs) if im.has_wcs() else None for im in COL.load(paths).images()]
+    runs = [(None, 1), (3, 2)] if tier == "quick" else [(None, 1), (3, 2), (None, 3), (2, 1), (5, 2)]
+    terms, metas = [], []
+    for given, par in runs:
+        events, filters, casc = [], [], {}
+        orig_tb, orig_c = B.Builder.toast_base, B.Builder.cascade
+
+        def rec_tb(self, sampler, depth, *a, **kw):
+            events.append(("tb", int(depth), kw.get("tile_filter"), kw.get("parallel", "missing")))
+            return orig_tb(self, sampler, depth, *a, **kw)
+
+        def rec_c(self, **kw):
+            events.append(("c", kw.get("tile_filter"), kw.get("parallel", "missing")))
+            casc["depth"] = int(self.imgset.tile_levels)
+            return orig_c(self, **kw)
+
+        out = str(work / f"out_{given}_{par}")
+        kwargs = dict(out_dir=out, tiling_method=TilingMethod.TOAST, parallel=par, override=True)
+        if given is not None:
+            kwargs["start"] = given
+        case = dict(kind="multi_toast", images=[list(sp) for sp in specs], start=given, parallel=par, guessed_levels=levels)
+        with quiet(), warnings.catch_warnings(), mock.patch.object(B.Builder, "toast_base", rec_tb), \
+                mock.patch.object(B.Builder, "cascade", rec_c):
+            warnings.simplefilter("ignore")
+            try:
+                toasty.tile_fits(paths, **kwargs)
+            except Exception as e:  # noqa: BLE001
+                V.disagreement("tile_fits(several images, TOAST) completes", case, "returns", repr(e), True)
+                continue
+        tb = [e for e in events if e[0] == "tb"]
+        cs = [e for e in events if e[0] == "c"]
+        # which image does a sampling call's filter belong to?  the one whose centre tile it accepts
+        start_used = tb[0][1] if tb else 1
+        centres = [T.toast_tile_for_point(start_used, math.radians(dec), math.radians(ra)) for ra, dec, _sc in specs]
+
+        def owner(flt):
+            if flt is None:
+                return 99
+            acc = [j for j, t in enumerate(centres) if flt(t)]
+            return acc[0] if len(acc) == 1 else 98
+
+        def g_par(v):
+            return "None" if v == "missing" or v is None else f"(Some {int(v)}%Z)"
+        ev_terms = []
+        k = 0
+        for e in events:
+            if e[0] == "tb":
+                ev_terms.append(f"(ToastBase {k}%nat {e[1]}%Z {owner(e[2])}%nat {g_par(e[3])})")
+                k += 1
+            else:
+                ev_terms.append(f"(Cascade {g_par(e[2])})")
+        # probe: every tile down to depth min(start, 4), each image's filter and the cascade's filter
+        probe = []
+        cflt = cs[0][1] if cs else None
+        flts = [e[2] for e in tb]
+        for t in T.generate_tiles(min(start_used, 4), bottom_only=False):
+            ind = [bool(f(t)) if f is not None else False for f in flts]
+            probe.append((ind, bool(cflt(t)) if cflt is not None else True))
+        g_b = lambda b: "true" if b else "false"   # noqa: E731
+        g_probe = "[" + "; ".join("([" + "; ".join(g_b(b) for b in ind) + "], " + g_b(c) + ")" for ind, c in probe) + "]"
+        g_levels = "[" + "; ".join("None" if l is None else f"(Some {int(l)}%Z)" for l in levels) + "]"
+        g_given = "None" if given is None else f"(Some {given}%Z)"
+        terms.append(f"(mkMT {g_given} {g_levels} (Some {par}%Z) [{'; '.join(ev_terms)}] {casc.get('depth', -1)}%Z {g_probe})")
+        metas.append((case, dict(calls=[(e[0], e[1] if e[0] == "tb" else None, owner(e[2] if e[0] == "tb" else None) if e[0] == "tb" else None,
+                                         e[3] if e[0] == "tb" else e[2]) for e in events], cascade_depth=casc.get("depth"))))
+        # the statement itself on the files: every ancestor of a base-level tile exists (no holes)
+        have = {}
+        for root, _d, names in os.walk(out):
+            for nm in names:
+                if nm.endswith(".fits"):
+                    rel = os.path.relpath(os.path.join(root, nm), out).split(os.sep)
+                    if len(rel) == 3:
+                        y, x = rel[2][:-5].split("_")
+                        have[(int(rel[0]), int(x), int(y))] = True
+        deepest = max((p[0] for p in have), default=0)
+        holes = []
+        for (n, x, y) in sorted(have):
+            if n == deepest:
+                for up in range(1, n + 1):
+                    anc = (n - up, x >> up, y >> up)
+                    if anc not in have:
+                        holes.append([list((n, x, y)), list(anc)])
+        if holes:
+            V.disagreement("C07 on tile_fits(several images, TOAST): every tile above a written base tile exists (no holes)",
+                           case, "all ancestors present", dict(missing_ancestors=holes[:6]), True)
+        shutil.rmtree(out, ignore_errors=True)
+    bad = common.coq_eval_sharded(MT_DEFS, terms, "chk_mt", ["Model.MultiToast"], shard=10, jobs=2, name="c07m")
+    REL = {1: "the sampling / cascade calls and their arguments are the script of MultiToast.script "
+              "(one call per image, its own filter, one common depth, the caller's worker count in every call)",
+           2: "the cascade starts at the depth the images were sampled at (MultiToast.recorded_levels)",
+           3: "the cascade's filter is the union of the images' filters (MultiToast.union_filter) on every tile down to depth 4"}
+    for i, code in bad.items():
+        case, obs = metas[i]
+        V.disagreement("MultiToast.v ~ FitsTiler._tile_toast: " + REL.get(code, str(code)), case, "model script (vm_compute)", obs, None)
+    shutil.rmtree(work, ignore_errors=True)
+    return dict(multi_toast_runs=len(terms))
+
+
 def run(ctx, V):
     tier = ctx["tier"]
     rp = (ctx.get("replay") or {}).get("case") or {}
@@ -1289,6 +1445,9 @@ def run(ctx, V):
     if r:
         cov.update(r)
     r = part("P", part_P)
+    if r:
+        cov.update(r)
+    r = part("M", part_M)
     if r:
         cov.update(r)
     for name, fn, k in (("C", part_C, "chunks"), ("D", part_D, "bounds"), ("E", part_E, "box_e2e"), ("F", part_F, "tan")):
